@@ -191,5 +191,5 @@ def run(ctx):
             ctx.classify(ctx.evaluate([c]), tie="K+E")
     return ctx.finish(
         checker_cmd="lake build Oas3Model.Props.C10 && #print axioms on every theorem" + ("" if ctx.quick else " && leanchecker"),
-        trusted_base=vlib.TRUSTED_BASE + ["the by-value / Box / Vec / map / Option reading of emitted field types (harness/src/k_graph.rs::walk)", "rustc's own E0072 check is not run in the quick tier", "better_default's Default expansion: struct -> every field without #[default(..)], enum -> the #[default] variant's payload"],
-        rule="all labelled digraphs on 2 schemas over the 8 edge kinds without allOf cycles (every one thorough; 300 sampled quick), 3-schema graphs with <=3 edges (20000 sampled thorough / 250 quick), random graphs on 3-6 schemas; generated with --all-schemas; the emitted types' by-value containment graph and Default-construction graph must be acyclic (cycle test = the proved `cyclic`); SchemaRegistry's cyclic set compared with the model; non-trivial = >=1 type; distinct by input hash")
+        trusted_base=vlib.TRUSTED_BASE + ["the by-value / Box / Vec / map / Option reading of emitted field types (harness/src/k_graph.rs::walk)", "rustc's own E0072 check is not run in the quick tier", "serde's untagged decode = first variant in declaration order whose non-optional members are present (Model/Graph.lean UVariant), documents abstracted to key sets", "better_default's Default expansion: struct -> every field without #[default(..)], enum -> the #[default] variant's payload"],
+        rule="all labelled digraphs on 2 schemas over the 8 edge kinds without allOf cycles (every one thorough; 300 sampled quick), 3-schema graphs with <=3 edges (20000 sampled thorough / 250 quick), random graphs on 3-6 schemas; unions held by value: two-schema graphs with one inline-union / structural-copy edge (9 kinds, + one further edge; all: thorough, 150: quick), 8 named documents, random 2-5 schema mixes, with and without --no-helpers; recursive unions anyOf/oneOf over 6 member kinds in every order of two and random orders of 3-4: the full document of every member must survive the first-accepting-variant decode under the emitted variant order; generated with --all-schemas; the emitted types' by-value containment graph and Default-construction graph must be acyclic (cycle test = the proved `cyclic`); SchemaRegistry's cyclic set compared with the model; non-trivial = >=1 type; distinct by input hash")
